@@ -4,6 +4,7 @@ import (
 	"bufio"
 	"bytes"
 	"context"
+	"encoding/binary"
 	"errors"
 	"fmt"
 	"io"
@@ -993,7 +994,15 @@ func (multi *MultiEpoch) processSlotTransactions(
 								}
 							}
 
-							buffer.add(txResp.Slot, *txResp.Index, txResp)
+							bufferIndex := uint64(0)
+							if txResp.Index != nil {
+								bufferIndex = *txResp.Index
+							} else if sig, err := txn.Signature(); err == nil {
+								// Older archives do not record the position of a transaction in its
+								// block: keep such transactions apart (and deduplicated) by signature.
+								bufferIndex = binary.LittleEndian.Uint64(sig[:8])
+							}
+							buffer.add(txResp.Slot, bufferIndex, txResp)
 						}
 					}
 				}
